@@ -207,7 +207,10 @@ def h_store(cfg):
         elif op == 'get':
             if kind == 'filter':
                 th = (k % 2) if cfg.get('concrete_keys') and k % 8 not in (1, 6) else sym_int('th%d' % k)
-                ev = st.get(lambda it, th=th: it.v >= th)
+                if cfg.get('truthy_filter'):
+                    ev = st.get(lambda it, th=th: 1 if it.v >= th else 0)      # truthy / falsy, not a bool
+                else:
+                    ev = st.get(lambda it, th=th: it.v >= th)
                 twin_op(k, op, th=th)
                 reqs.append({'k': k, 'kind': 'get', 'ev': ev, 'th': th, 'cancelled': False, 'granted': False})
             else:
@@ -318,7 +321,8 @@ HARNESSES = {'container': h_container, 'store': h_store}
 
 
 def VIOL_KEY(cfg):
-    return cfg.get('kind', 'container') + ('/cancel' if any(isinstance(o, list) for o in cfg['ops']) else '')
+    return cfg.get('kind', 'container') + ('/cancel' if any(isinstance(o, list) for o in cfg['ops']) else '') + \
+        ('/truthy' if cfg.get('truthy_filter') else '') + ('/eq' if cfg.get('equal_items') else '') + ('/falsy' if cfg.get('falsy') else '')
 
 
 def _scripts(n, tier, rng):
@@ -386,6 +390,8 @@ def jobs(tier, seed):
     # items that compare equal but are different objects (1 and 1.0, records compared by one field)
     for ops in (['put', 'put', 'get', 'get'], ['put', 'put', 'put', 'get']):
         js.append({'harness': 'store', 'weight': 30, 'cfg': {'ops': ops, 'sorts': 'int', 'kind': 'filter', 'equal_items': True}})
+    # filters whose verdict is truthy / falsy without being a bool (x % 2, re.match ...)
+    js.append({'harness': 'store', 'weight': 30, 'cfg': {'ops': ['put', 'get', 'put', 'get'], 'sorts': 'int', 'kind': 'filter', 'truthy_filter': True}})
     # capacities that are not whole numbers
     for kind in ('store', 'prio'):
         js.append({'harness': 'store', 'weight': 30, 'cfg': {'ops': ['put', 'put', 'put', 'get'], 'sorts': 'int', 'kind': kind, 'realcap': True}})
